@@ -52,10 +52,17 @@ func validateAllCriteriaAreGain(criteria *model.Criteria) {
 }
 
 func validateAllWeightsAvailable(weights *model.Weights, criteria *model.Criteria) {
-	criteriaNames := criteria.Names()
-	requiredCriteriaCombinations := *PowerSet(*criteriaNames)
-	for _, rcc := range requiredCriteriaCombinations {
-		getWeightForCriteriaUnion(&rcc, weights)
+	criteriaNames := *criteria.Names()
+	// walk the power set lazily (in the order of PowerSet): materialising it for many criteria
+	// exhausts the memory long before the first missing weight is noticed
+	for index := 1; index>>uint(len(criteriaNames)) == 0; index++ {
+		var subSet []string
+		for j, elem := range criteriaNames {
+			if index&(1<<uint(j)) > 0 {
+				subSet = append(subSet, elem)
+			}
+		}
+		getWeightForCriteriaUnion(&subSet, weights)
 	}
 }
 
